@@ -84,6 +84,14 @@ impl Ctx<'_> {
             self.fail(filter, clause, idx, chain, data, expected, &actual);
         }
     }
+    /// either of two readings is accepted
+    fn either(&self, filter: &str, clause: &str, idx: u64, chain: &str, data: &V, a: &str, b: &str) {
+        let actual = self.render(chain, data);
+        self.nontriv.fetch_add(1, Ordering::Relaxed);
+        if actual != Outcome::Ok(a.to_string()) && actual != Outcome::Ok(b.to_string()) {
+            self.fail(filter, clause, idx, chain, data, &format!("{a} (or {b})"), &actual);
+        }
+    }
     /// the result must be a permutation of `input`
     fn permutation(&self, filter: &str, idx: u64, chain: &str, data: &V, input: &[V]) -> Option<Vec<String>> {
         let actual = self.render(chain, data);
@@ -337,7 +345,8 @@ fn object_arrays(ctx: &Ctx, maxlen: u32) {
             // falsy targets: only objects that *have* the property (with an equal value) qualify; a missing
             // property is not "equal to nil".  Equality is the value model's (nil == false there).
             let has_falsy: Vec<V> = a.iter().filter(|o| matches!(getp(o, "p"), Some(v) if v == V::Nil || v == V::Bool(false))).cloned().collect();
-            ctx.exact("where", "equal-to-falsy-target", i, "where: 'p', nothing", &data, &darr(&has_falsy));
+            // a nil target may also be read as "no target given" (Ruby's signature defaults it to nil): truthy filter
+            ctx.either("where", "equal-to-falsy-target", i, "where: 'p', nothing", &data, &darr(&has_falsy), &darr(&truthy));
             ctx.exact("where", "equal-to-falsy-target", i, "where: 'p', false", &data, &darr(&has_falsy));
             ctx.exact("where", "absent-property", i, "where: 'zz', nothing", &data, "[]");
             ctx.exact("where", "absent-property", i, "where: 'zz', 1", &data, "[]");
